@@ -79,13 +79,21 @@ impl Bucket {
             return true;
         }
 
-        // See if any lower priority nodes are present in the table, we cant do
-        // nodes that have equal status because we have to prefer longer lasting
+        // Prefer an unused or bad slot, so that no live node is dropped while such a slot exists.
+        // Only when there is none, see if any lower priority nodes are present in the table, we cant
+        // do nodes that have equal status because we have to prefer longer lasting
         // nodes in the case of a good status which helps with stability.
-        let replace_index = self
+        let replace_index = match self
             .nodes
             .iter()
-            .position(|node| node.status() < new_node_status);
+            .position(|node| node.status() == NodeStatus::Bad)
+        {
+            Some(index) => Some(index),
+            None => self
+                .nodes
+                .iter()
+                .position(|node| node.status() < new_node_status),
+        };
         if let Some(index) = replace_index {
             self.nodes[index] = new_node;
 
